@@ -262,9 +262,9 @@ convert(struct func *f, struct type *dst, struct type *src, struct value *l)
 	struct value *r = NULL;
 	int class;
 
-	if (src->kind == TYPEPOINTER)
+	if (src->kind == TYPEPOINTER || src->kind == TYPENULLPTR)
 		src = &typeulong;
-	if (dst->kind == TYPEPOINTER)
+	if (dst->kind == TYPEPOINTER || dst->kind == TYPENULLPTR)
 		dst = &typeulong;
 	if (dst->kind == TYPEVOID)
 		return NULL;
@@ -725,6 +725,8 @@ funcexpr(struct func *f, struct expr *e)
 		t = e->type;
 		if (t->prop & PROPINT || t->kind == TYPEPOINTER)
 			return mkintconst(e->u.constant.u);
+		if (t->kind == TYPENULLPTR)
+			return mkintconst(0);
 		assert(t->prop & PROPFLOAT);
 		return mkfltconst(t->size == 4 ? VALUE_FLTCONST : VALUE_DBLCONST, e->u.constant.f);
 	case EXPRBITFIELD:
